@@ -65,8 +65,13 @@ func (t *Task) LocalName() string {
 
 // WildcardMatch will check if the given string matches the name of the Task and returns any wildcard values.
 func (t *Task) WildcardMatch(name string) (bool, []string) {
-	// Convert the name into a regex string
-	regexStr := fmt.Sprintf("^%s$", strings.ReplaceAll(t.Task, "*", "(.*)"))
+	// Convert the name into a regex string: only '*' is special, every other
+	// character of the task name is matched literally
+	names := strings.Split(t.Task, "*")
+	for i, name := range names {
+		names[i] = regexp.QuoteMeta(name)
+	}
+	regexStr := fmt.Sprintf("^%s$", strings.Join(names, "(.*)"))
 	regex := regexp.MustCompile(regexStr)
 	wildcards := regex.FindStringSubmatch(name)
 	wildcardCount := strings.Count(t.Task, "*")
